@@ -13,6 +13,9 @@
   The merge half of the statement is FALSE on the code as it is:
     * finding_C12_F1 — after yielding `var0, 0, (+ var0 var0)` and merging `0`, heap search
       yields `(+ 0 var0)`, which contains the merged program.
+  The liveness half with a filter is also false on the code as it is (finding C12-F4: a successor
+  that is already in `deleted` is not pushed, `Env.dropDeleted = true`, which cuts the successor
+  graph); the proposed one-line fix is modelled by `dropDeleted = false`.
   Absence of duplicates and the liveness half are not proved (checked by oracle and correspondence).
 -/
 import PS.Model.Enum.HeapSearch
